@@ -4,7 +4,7 @@ from tools import vlib
 from tools.vlib import hx, unhx
 
 MODULE = "PropC14"
-THEOREMS = ["C14_code_conforms", "C14_valid_segment", "C14_reduction", "C14_stable", "C14_preimage_injective_param", "C14_preimage_injective_input", "C14_preimage_refuted"]
+THEOREMS = ["C14_code_conforms", "C14_valid_segment", "C14_reduction", "C14_stable", "C14_preimage_injective_param", "C14_preimage_injective_input", "C14_preimage_refuted", "C14_cone_conforms"]
 
 
 def line(ident, reverse=False):
